@@ -71,7 +71,7 @@ func (e *Engine) canon(st *State, x ast.Expr) keyInfo {
 		case *types.Var:
 			k := e.objKey(o)
 			if st != nil {
-				if a := st.facts["val:"+k]; a != nil && a.Alias != nil {
+				if a := st.facts["val:"+k]; a != nil && a.Alias != nil && !hasStr(a.Tags, "soft") {
 					return *a.Alias
 				}
 			}
